@@ -86,7 +86,9 @@ theorem C10_creator_roundtrip (pick : Pick) (chunks : List (List UInt8)) (bytes 
 
 /-- A symbol map that is handed a stored index built from the same text — in any chunking, e.g. the
 chunks of the download — is the same map as the one that indexes the file itself (in 1 MiB reads): same
-parsed index, hence the same answer to every lookup. -/
+parsed index, hence the same answer to every lookup. (Since fix 3f61c23c the stored index is used only if
+its MODULE line is the beginning of the text; whether this index passes that test or is rebuilt, the
+result is the same map. `C10_own_index_accepted` shows that for a well-formed file it does pass.) -/
 theorem C10_stored_eq_self_built (pick : Pick) (text : List UInt8) (chunks : List (List UInt8))
     (bytes : List UInt8) (hflat : chunks.flatten = text) (hidx : index pick chunks = .ok bytes) :
     mapStored pick text (some bytes) = mapSelf pick text :=
@@ -99,6 +101,46 @@ theorem C10_stored_fallback (pick : Pick) (text : List UInt8) (stored : Option (
   rw [h]
   unfold mapSelf
   split <;> rfl
+
+/-- **A stored index of another file is ignored** (fix 3f61c23c). If the stored bytes parse but the MODULE
+line they carry (first line of the module-info block) is empty or is not the beginning of the `.sym` text —
+another debug id, another name, another letter case, one byte more or less, anything — the map is exactly
+the self-indexing map: a stale or foreign `.symindex` cannot influence any lookup. Holds for ALL byte
+strings `b` and texts. -/
+theorem C10_foreign_stored_ignored (pick : Pick) (text b : List UInt8) (ix : Index)
+    (hp : parseSymindex b = some ix)
+    (hm : ¬ (storedModuleLine ix ≠ [] ∧ storedModuleLine ix <+: text)) :
+    mapStored pick text (some b) = mapSelf pick text := by
+  apply mapStored_mismatch pick text b ix hp
+  cases h : storedMatches text ix with
+  | false => rfl
+  | true => exact absurd ((storedMatches_iff text ix).1 h) hm
+
+/-- … and the complete description of `make_index_storage`: the stored index is used if and only if it
+parses and its non-empty MODULE line is the beginning of the text; in every other case (absent, unparsable,
+truncated, foreign) the map is the self-indexing one. -/
+theorem C10_stored_used_iff (pick : Pick) (text : List UInt8) (stored : Option (List UInt8))
+    (hb : (tag tMODULE_ text).isSome = true) :
+    (∀ ix, stored.bind parseSymindex = some ix → storedModuleLine ix ≠ [] → storedModuleLine ix <+: text →
+        mapStored pick text stored = .ok ix) ∧
+    ((∀ ix, stored.bind parseSymindex = some ix → ¬ (storedModuleLine ix ≠ [] ∧ storedModuleLine ix <+: text)) →
+        mapStored pick text stored = mapSelf pick text) := by
+  have hn : (tag tMODULE_ text).isNone = false := by
+    cases h : tag tMODULE_ text <;> simp_all
+  refine ⟨?_, ?_⟩
+  · intro ix hp h1 h2
+    unfold mapStored
+    simp [hn, hp, (storedMatches_iff text ix).2 ⟨h1, h2⟩]
+  · intro h
+    cases hp : stored.bind parseSymindex with
+    | none => exact C10_stored_fallback pick text stored hp
+    | some ix =>
+      have hm : storedMatches text ix = false := by
+        cases h' : storedMatches text ix with
+        | false => rfl
+        | true => exact absurd ((storedMatches_iff text ix).1 h') (h ix hp)
+      unfold mapStored
+      simp [hn, hp, hm]
 
 /-- The self-indexing map is a function of the whole text (its 1 MiB reads are one particular chunking),
 and it never hits the `unwrap` of `make_symbol_map` for a text shorter than 2^64 bytes. -/
@@ -191,6 +233,81 @@ theorem C10_wholesym_local_stale_rejected (pick : Pick) (lens : List Nat) (text 
   · simp only [hm, if_true]; unfold mapSelf; simp [hm]
   · simp only [hm, Bool.false_eq_true, if_false, wsEnsureSymindex]
     rw [C10_stored_fallback pick text (some b) (by simpa using h)]
+
+/-- The stored index of a well-formed file passes the MODULE-line test of the repaired `make_index_storage`
+(its module-info block begins with the MODULE line of the text, CRs stripped, which is the beginning of the
+text), so it is USED — not merely equal in effect to re-indexing: any mixture of `\n` / `\r\n` / `\r\r\n`
+after the MODULE line, with or without INFO records. -/
+theorem C10_own_index_accepted (s : SymFile) (h : WFIndex s) :
+    storedModuleLine (specIndex s) = s.moduleLine ∧ storedMatches (render s) (specIndex s) = true :=
+  ⟨storedModuleLine_spec s h, storedMatches_render s h⟩
+
+/-- An existing `.symindex` that parses but belongs to another file (its MODULE line is not the beginning of
+this `.sym` file) is left alone on disk and ignored by the map (fix 3f61c23c). -/
+theorem C10_wholesym_local_stale_foreign_ignored (pick : Pick) (lens : List Nat) (text b : List UInt8)
+    (ix : Index) (hp : parseSymindex b = some ix)
+    (hm : ¬ (storedModuleLine ix ≠ [] ∧ storedModuleLine ix <+: text)) :
+    wsLocalMap pick lens text (some b) = (mapSelf pick text, .file b) := by
+  unfold wsLocalMap
+  by_cases ht : (tag tMODULE_ text).isNone = true
+  · simp only [ht, if_true]; unfold mapSelf; simp [ht]
+  · simp only [ht, Bool.false_eq_true, if_false, wsEnsureSymindex]
+    rw [C10_foreign_stored_ignored pick text b ix hp hm]
+
+/-- `MODULE a b 0123456789ab c\nPUBLIC 1000 0 new\n` -/
+def C10_staleText : List UInt8 := [77, 79, 68, 85, 76, 69, 32, 97, 32, 98, 32, 48, 49, 50, 51, 52, 53, 54, 55, 56, 57, 97, 98, 32, 99, 10, 80, 85, 66, 76, 73, 67, 32, 49, 48, 48, 48, 32, 48, 32, 110, 101, 119, 10]
+
+/-- the index of ANOTHER file, `MODULE x y 0123456789ab old\nPUBLIC 2000 0 q\n`: one PUBLIC symbol 0x2000,
+line of 15 bytes at offset 28 -/
+def C10_staleIndex : Index :=
+  ⟨[77, 79, 68, 85, 76, 69, 32, 120, 32, 121, 32, 48, 49, 50, 51, 52, 53, 54, 55, 56, 57, 97, 98, 32, 111, 108, 100],
+   [], [], [8192], [⟨0, 15, 28⟩]⟩
+
+/-- Before fix 3f61c23c (`mapStoredLegacy`) a `.symindex` left over from another `.sym` file was used as
+it was: the map over `C10_staleText` held the foreign index, and the lookup of 0x1000 — the PUBLIC record
+`new` of the text — found nothing. The repaired `make_index_storage` sees that the stored MODULE line is
+not the beginning of the text, re-indexes, and the lookup finds `new`. -/
+theorem C10_legacy_counterexample_stale_symindex :
+    mapStoredLegacy Pick.first C10_staleText (some (serialize C10_staleIndex)) = .ok C10_staleIndex ∧
+    lookup C10_staleText C10_staleIndex 4096 = .none ∧
+    storedMatches C10_staleText C10_staleIndex = false ∧
+    mapStored Pick.first C10_staleText (some (serialize C10_staleIndex)) = mapSelf Pick.first C10_staleText ∧
+    ∃ ix, mapSelf Pick.first C10_staleText = .ok ix ∧
+      lookup C10_staleText ix 4096 = .found ⟨4096, none, [110, 101, 119], none⟩ := by
+  have hok : ∀ (mi : List UInt8) (a : Nat) (e : SymEntry), (10 : UInt8) ∉ mi → (moduleLine mi).isSome = true →
+      a < pow32 → e.ok → Index.ok ⟨mi, [], [], [a], [e]⟩ := by
+    intro mi a e h10 hm ha he
+    refine ⟨by simp, by simp, by simpa using ha, by simpa using he, ?_⟩
+    exact deriveModule_of_shape mi ⟨mi, [], by simp [LB.joinNl], h10, by simp, hm⟩
+  have hp : parseSymindex (serialize C10_staleIndex) = some C10_staleIndex :=
+    parse_serialize _ (hok _ _ _ (by decide) (by decide) (by decide) ⟨by decide, by decide, by decide⟩) (by decide)
+  have hsingle : ∀ (gt : Nat → Bool) (x : Nat), bsearchLE gt [x] = if gt x then none else some 0 := by
+    intro gt x
+    unfold bsearchLE
+    rw [bsearchBase]
+    simp
+  refine ⟨?_, ?_, by decide, mapStored_mismatch Pick.first C10_staleText _ _ hp (by decide), ?_⟩
+  · unfold mapStoredLegacy
+    rw [show (some (serialize C10_staleIndex)).bind parseSymindex = some C10_staleIndex from hp]
+    decide
+  · unfold lookup
+    simp only [C10_staleIndex, hsingle]
+    decide
+  · have hi : index Pick.first [C10_staleText] = .ok (serialize ⟨[77, 79, 68, 85, 76, 69, 32, 97, 32, 98, 32, 48, 49, 50, 51, 52, 53, 54, 55, 56, 57, 97, 98, 32, 99],
+        [], [], [4096], [⟨0, 17, 26⟩]⟩) := by
+      unfold index
+      rw [preIndex_eq_spec]
+      decide
+    have hp2 := parse_serialize _ (hok [77, 79, 68, 85, 76, 69, 32, 97, 32, 98, 32, 48, 49, 50, 51, 52, 53, 54, 55, 56, 57, 97, 98, 32, 99]
+      4096 ⟨0, 17, 26⟩ (by decide) (by decide) (by decide) ⟨by decide, by decide, by decide⟩) (by decide)
+    refine ⟨⟨[77, 79, 68, 85, 76, 69, 32, 97, 32, 98, 32, 48, 49, 50, 51, 52, 53, 54, 55, 56, 57, 97, 98, 32, 99],
+        [], [], [4096], [⟨0, 17, 26⟩]⟩, ?_, ?_⟩
+    · rw [mapSelf_eq, hi]
+      simp only [hp2]
+      decide
+    · unfold lookup
+      simp only [hsingle]
+      decide
 
 /-- Before fix c4b9d51a an `INLINE_ORIGIN` record inside a FUNC block made the whole block unparseable
 (every lookup in that function returned nothing); the repaired parser skips it. -/
